@@ -428,10 +428,8 @@ func (s *state) runW(mid, nid uint32, npool int, ops []wop) {
 	for i := 0; i < npool; i++ {
 		pool = append(pool, acmelib.NewCANIDBuilder(fmt.Sprintf("pool_%d", i)))
 	}
-	// the default builder must be the documented one
-	if got := opsString(pool[0]); got != "2.0.4,1.4.7,3.0.11" {
-		s.fail("default-builder-ops", "default builder of a new bus has operations "+got)
-	}
+	defaultPristine := true // pool[0] is the bus's own default builder, not edited so far
+	curBuilder := 0
 
 	// ledger of what the harness did successfully
 	hasStatic, static := false, uint32(0)
@@ -478,8 +476,12 @@ func (s *state) runW(mid, nid uint32, npool int, ops []wop) {
 			}
 		case "Sb":
 			bus.SetCANIDBuilder(pool[o.i])
+			curBuilder = o.i
 		case "Ed":
 			_, err = applyEdit(pool[o.i], o.e)
+			if o.i == 0 {
+				defaultPristine = false
+			}
 		}
 		flag := "K"
 		if err != nil {
@@ -519,6 +521,12 @@ func (s *state) runW(mid, nid uint32, npool int, ops []wop) {
 			st = "static-on-bus"
 		} else if attached && hasStatic {
 			st = "static-on-interface"
+		}
+		if st == "on-bus" && curBuilder == 0 && defaultPristine {
+			s.hist["getcanid/on-bus-default-builder"]++
+			if got >= 1<<11 {
+				s.fail("default-11bit", fmt.Sprintf("after %s: GetCANID=%#x >= 2^11 with the bus's default builder [%s]; case %s", o, got, opsString(bus.CANIDBuilder()), input))
+			}
 		}
 		statesSeen[st] = true
 		s.hist["getcanid/"+st]++
@@ -657,6 +665,8 @@ func main() {
 }
 
 func generate(s *state, r *rng, thorough bool) {
+	// the default builder of a new bus, as the implementation constructs it
+	s.emit("D;"+opsString(acmelib.NewBus("bus").CANIDBuilder()), "D", false)
 	nTrip, nIllegalTrip, nRandom, nWorld := 12, 3, 4000, 2500
 	if thorough {
 		nTrip, nIllegalTrip, nRandom, nWorld = 150, 12, 120000, 60000
